@@ -395,16 +395,15 @@ func (fr *Frame) havocExternal(cc *ssa.CallCommon, args []Val) {
 					visit(st.Field(i).Type(), depth+1)
 				}
 			} else {
-				h.Havoc(fr.st, boxComp(fr.R.TM.SortOf(el)))
+				h.Havoc(fr.st, boxComp(el))
 				visit(el, depth+1)
 			}
 		case *types.Slice:
-			h.Havoc(fr.st, elemsComp(fr.R.TM.SortOf(u.Elem())))
+			h.Havoc(fr.st, elemsComp(u.Elem()))
 			visit(u.Elem(), depth+1)
 		case *types.Map:
-			ks, vs := fr.mapSorts(u)
-			h.Havoc(fr.st, mapDomComp(ks, vs))
-			h.Havoc(fr.st, mapValComp(ks, vs))
+			h.Havoc(fr.st, mapDomComp(u))
+			h.Havoc(fr.st, mapValComp(u))
 			h.Havoc(fr.st, mapLenComp)
 			visit(u.Elem(), depth+1)
 		case *types.Struct:
@@ -775,7 +774,7 @@ func (fr *Frame) havocTarget(ctx *EvalCtx, e Expr) {
 			ctx.withFrameState(func() { x = ctx.eval(e.Args[0]) })
 			st := types.Unalias(x.Ty).Underlying().(*types.Slice)
 			es := fr.R.TM.SortOf(st.Elem())
-			name := elemsComp(es)
+			name := elemsComp(st.Elem())
 			arr := h.Get(fr.st, name, ArraySort(SInt, ArraySort(SInt, es)))
 			h.Set(fr.st, name, fr.define("h", Store(arr, app(SInt, "s-arr", x.T), fr.R.Sc.FreshConst("row", ArraySort(SInt, es)))))
 			return
@@ -784,7 +783,7 @@ func (fr *Frame) havocTarget(ctx *EvalCtx, e Expr) {
 			ctx.withFrameState(func() { x = ctx.eval(e.Args[0]) })
 			mt := types.Unalias(x.Ty).Underlying().(*types.Map)
 			ks, vs := fr.mapSorts(mt)
-			dn, vn := mapDomComp(ks, vs), mapValComp(ks, vs)
+			dn, vn := mapDomComp(mt), mapValComp(mt)
 			d := h.Get(fr.st, dn, ArraySort(SInt, ArraySort(ks, SBool)))
 			v := h.Get(fr.st, vn, ArraySort(SInt, ArraySort(ks, vs)))
 			l := h.Get(fr.st, mapLenComp, ArraySort(SInt, SInt))
@@ -900,22 +899,21 @@ func (fr *Frame) reachComps(t types.Type) []string {
 			el := types.Unalias(u.Elem())
 			if st, ok := el.Underlying().(*types.Struct); ok {
 				if fr.isOpaqueStruct(el) {
-					out = append(out, boxComp(fr.R.TM.SortOf(el)))
+					out = append(out, boxComp(el))
 				}
 				for i := 0; i < st.NumFields(); i++ {
 					out = append(out, fieldComp(el, st.Field(i).Name()))
 					visit(st.Field(i).Type(), depth+1)
 				}
 			} else {
-				out = append(out, boxComp(fr.R.TM.SortOf(el)))
+				out = append(out, boxComp(el))
 				visit(el, depth+1)
 			}
 		case *types.Slice:
-			out = append(out, elemsComp(fr.R.TM.SortOf(u.Elem())))
+			out = append(out, elemsComp(u.Elem()))
 			visit(u.Elem(), depth+1)
 		case *types.Map:
-			ks, vs := fr.mapSorts(u)
-			out = append(out, mapDomComp(ks, vs), mapValComp(ks, vs), mapLenComp)
+			out = append(out, mapDomComp(u), mapValComp(u), mapLenComp)
 			visit(u.Elem(), depth+1)
 		case *types.Struct:
 			for i := 0; i < u.NumFields(); i++ {
